@@ -54,6 +54,9 @@ pub struct Monitor {
     pub step_no: usize,
     /// coarse, property-independent description of the last judged transaction (coverage accounting)
     pub last_case: u64,
+    /// per listing id: hash of the sequence of (actor role, message kind, outcome) aimed at it, and the
+    /// actors in order of first appearance (role 0 = creator, 1 = second distinct account, …)
+    pub listing_seq: BTreeMap<u64, (u64, Vec<String>)>,
 }
 
 fn stage_of(s: St) -> u8 {
@@ -86,6 +89,7 @@ impl Monitor {
             last_fee_switch_step: None,
             step_no: 0,
             last_case: 0,
+            listing_seq: BTreeMap::new(),
         }
     }
 
@@ -214,6 +218,29 @@ impl Monitor {
                     }
                     h = crate::prng::fnv_mix(h, &target_class(pre, a).to_be_bytes());
                     self.last_case = h;
+                }
+                // interleaving measure: who did what to which listing, in which order, with which outcome
+                let target: Option<u64> = match &a.act {
+                    Act::CreateListing { id, .. }
+                    | Act::AddToListing { id, .. }
+                    | Act::ChangeAsk { id, .. }
+                    | Act::Finalize { id, .. }
+                    | Act::DeleteListing { id }
+                    | Act::Withdraw { id } => Some(*id),
+                    Act::Buy { lid, .. } => Some(*lid),
+                    _ => None,
+                };
+                if let Some(id) = target {
+                    let e = self.listing_seq.entry(id).or_insert((crate::prng::fnv1a(b"seq"), vec![]));
+                    let role = match e.1.iter().position(|x| *x == a.sender) {
+                        Some(i) => i,
+                        None => {
+                            e.1.push(a.sender.clone());
+                            e.1.len() - 1
+                        }
+                    };
+                    e.0 = crate::prng::fnv_mix(e.0, &[role.min(7) as u8, out.ok as u8]);
+                    e.0 = crate::prng::fnv_mix(e.0, kind.as_bytes());
                 }
                 // transition coverage
                 let sc = state_class(pre);
